@@ -69,6 +69,14 @@ def splitStr (sep : Char) (s : String) : List String := (splitChar sep s.toList)
 
 def withPrefix (pfx code : String) : String := if pfx.isEmpty then code else pfx ++ ":" ++ code
 
+/-- the prefix used for the code (exceptions.py:266-274): `'err'` if `namespaces` is empty or binds
+`err` to the xqt-errors namespace, else the first prefix bound to that namespace, else `'err'` -/
+def computePrefix (ns : List (String × String)) : String :=
+  if ns.isEmpty || ((ns.find? (·.1 == "err")).map (·.2)) == some xqtNs then "err"
+  else match ns.find? (·.2 == xqtNs) with
+    | some p => p.1
+    | none => "err"
+
 /-- `xpath_error(code, …, namespaces)`; `pfx` is the prefix computed from `namespaces`
 (exceptions.py:266-274: `'err'` unless another prefix is bound to the xqt-errors namespace) -/
 def xpathError (m : CodeMap) (pfx : String) : CodeArg → ErrObj
